@@ -118,7 +118,10 @@ contract targetsFromGroup
   atentry do gPending = nil
   loop 1 invariant[C17] @every_dropped_entry_is_kept (gPending != nil && gPendingDropped) ==> (len(targets) > 0 && targets[len(targets) - 1].PromTarget == gPending)
   loop 2 invariant fresh(lbls)
+  loop 2 invariant[C02] @the_targets_own_label_wins_over_the_group_label forall j in 0..len(lbls) :: ((lbls[j].Name in tlset) && lbls[j].Value == tlset[lbls[j].Name])
   loop 3 invariant fresh(lbls)
+  loop 3 invariant[C02] @the_targets_own_label_wins_over_the_group_label forall j in 0..len(lbls) :: ((lbls[j].Name in tlset) ==> lbls[j].Value == tlset[lbls[j].Name])
+  loop 3 invariant[C02] @group_labels_fill_the_rest forall j in 0..len(lbls) :: (!(lbls[j].Name in tlset) ==> ((lbls[j].Name in tg.Labels) && lbls[j].Value == tg.Labels[lbls[j].Name]))
 
 // the Prometheus target constructed last, and whether it is a dropped one (no final labels): a dropped target is
 // always kept - Prometheus de-duplicates only targets that have labels, its dropped list holds every dropped entry (C17)
@@ -127,6 +130,12 @@ ghost global gPendingDropped bool
 on after "github.com/prometheus/prometheus/scrape.NewTarget"(labels, discoveredLabels, params) in targetsFromGroup
    do gPending = result
    do gPendingDropped = (len(labels) == 0)
+
+// C02 "exactly the targets, labels ... a single Prometheus would obtain": the discovered label set handed to the label
+// pipeline is built as Prometheus builds it - a label of the target itself wins over a group label of the same name
+on call "github.com/prometheus/prometheus/model/labels.New"(ls) in targetsFromGroup
+   assert[C02] @the_targets_own_label_wins_over_the_group_label forall j in 0..len(ls) :: ((ls[j].Name in tlset) ==> ls[j].Value == tlset[ls[j].Name])
+   assert[C02] @group_labels_fill_the_rest forall j in 0..len(ls) :: (!(ls[j].Name in tlset) ==> ((ls[j].Name in tg.Labels) && ls[j].Value == tg.Labels[ls[j].Name]))
 
 // witness: the position in the result of the target that carries a recorded hash
 ghost global gHashIdx seq[int]
